@@ -145,6 +145,10 @@ class Models:
                 return [Val(obj.args, st)]
             if attr in obj.attrs:
                 return [Val(obj.attrs[attr], st)]
+            if attr == "errno":
+                v = V.sint(fresh_name("exc.errno"))
+                obj.attrs[attr] = v
+                return [Val(v, st)]
             v = SOpt(z3.Bool(fresh_name("exc." + attr + "?none")), V.sstr(fresh_name("exc." + attr)))
             obj.attrs[attr] = v
             return [Val(v, st)]
@@ -174,6 +178,8 @@ class Models:
         if isinstance(obj, enum.Enum):
             return [Val(getattr(obj, attr), st)]
         if hasattr(obj, "__pyvc_method__"):
+            if attr in getattr(obj, "__dict__", {}) and not attr.startswith("_"):
+                return [Val(obj.__dict__[attr], st)]
             return [Val(MethodOf(obj, attr), st)]
         if obj is None:
             return [ex.raise_(AttributeError, st, attr)]
@@ -629,7 +635,15 @@ class Models:
         if spec is None:
             ex.unsupported(s, f"loop #{ordinal} over symbolic sequence needs an invariant in the sidecar")
         a = st.ghost.get("args")
-        n = V.v_len(seq)
+        if isinstance(seq, SSeq):
+            n = V.v_len(seq)
+        elif hasattr(seq, "seq"):
+            n = V.v_len(seq.seq)
+        elif getattr(seq, "n", None) is not None:
+            n = SInt(seq.n)
+        else:
+            n = V.sint(fresh_name("itercount"))
+            st.assume(n.t >= 0)
         nt = V.z3int(n)
 
         def carried_of(state):
@@ -793,10 +807,8 @@ class Models:
             if isinstance(it, GenCall):
                 items_res = self.collect_generator(ex, it, r.st, node)
             elif isinstance(it, SSeq) or hasattr(it, "__pyvc_symbolic_iter__"):
-                if hasattr(it, "__pyvc_comprehension__"):
-                    outs.extend(it.__pyvc_comprehension__(ex, node, r.st, kind))
-                    continue
-                ex.unsupported(node, "comprehension over symbolic sequence")
+                outs.append(Val(self.symbolic_comprehension(ex, node, gen, it, r.st, kind), r.st))
+                continue
             else:
                 items_res = [Val(self.iter_concrete(ex, it, node), r.st)]
             for ir in items_res:
@@ -805,6 +817,33 @@ class Models:
                     continue
                 outs.extend(self._comp_over(ex, node, gen, ir.v, ir.st, kind))
         return outs
+
+    def symbolic_comprehension(self, ex, node, gen, it, st, kind):
+        """[elt for target in <symbolic sequence> if conds]: element-wise abstraction."""
+        from .abstractions import SymMapped
+
+        if kind == "dict":
+            ex.unsupported(node, "dict comprehension over symbolic sequence")
+        env_snapshot = dict(st.env)
+
+        def fn(ex_, elem, st0):
+            s = st0.fork()
+            saved_env = s.env
+            s.env = dict(env_snapshot)
+            res = []
+            for r in self._comp_over(ex_, node, gen, [elem], s, "list"):
+                if isinstance(r, Exc):
+                    r.st.env = saved_env
+                    res.append((r.st, "raise", r.exc))
+                else:
+                    r.st.env = saved_env
+                    if len(r.v) == 1:
+                        res.append((r.st, "keep", r.v[0]))
+                    else:
+                        res.append((r.st, "drop", None))
+            return res
+
+        return SymMapped(it, fn, kind)
 
     def _comp_over(self, ex, node, gen, items, st, kind):
         # comprehension scope: loop variables do not leak
@@ -902,6 +941,13 @@ class Models:
             return self.call_method(ex, fn.obj, fn.name, args, kwargs, st, node)
         if isinstance(fn, Lambda):
             return self.call_lambda(ex, fn, args, st, node)
+        if isinstance(fn, SObj):
+            for k in fn.cls.__mro__:
+                if "__call__" in vars(k):
+                    raw = vars(k)["__call__"]
+                    fr = ex.src.funcref(f"{raw.__module__}.{raw.__qualname__}")
+                    return self.call_repo(ex, fr, args, kwargs, st, node, bound_self=fn)
+            ex.unsupported(node, "object not callable")
         if isinstance(fn, (SGuard, SEnum)):
             out = []
             for g, f in V.as_guards(fn):
@@ -1048,6 +1094,10 @@ class Models:
             if not args:
                 return [Val(dict(kwargs), st)]
             src = args[0]
+            if src is os.environ:
+                d = {"<os.environ>": True}
+                d.update(kwargs)
+                return [Val(d, st)]
             if isinstance(src, GenCall):
                 gc = self.registry.get(src.fr.qualname)
                 if gc is not None and getattr(gc, "as_dict", None) is not None and src.fr.qualname != ex.top:
@@ -1072,6 +1122,12 @@ class Models:
                 return [Val(set(), st)]
             if hasattr(args[0], "__pyvc_toset__"):
                 return [Val(args[0].__pyvc_toset__(), st)]
+            from .abstractions import SymStrSet
+
+            if isinstance(args[0], SymStrSet):
+                return [Val(args[0], st)]
+            if isinstance(args[0], SSeq) and args[0].elem == "str":
+                return [Val(SymStrSet(args[0]), st)]
             items = self.iter_concrete(ex, args[0], node)
             return [Val(self.mkset(items), st)]
         if cls.__module__.startswith("bumpver"):
@@ -1111,6 +1167,8 @@ class Models:
 
     # ------------------------------------------------------------------ methods of builtin values
     def call_method(self, ex, obj, name, args, kwargs, st, node):
+        if obj is os.environ and name == "copy":
+            return [Val({"<os.environ>": True}, st)]
         if isinstance(obj, SRec):
             if name == "_replace":
                 bad = [k for k in kwargs if k not in obj.fields]
@@ -1145,6 +1203,12 @@ class Models:
             return self.file_method(ex, obj, name, args, kwargs, st, node)
         if hasattr(obj, "__pyvc_method__"):
             return obj.__pyvc_method__(ex, name, args, kwargs, st, node)
+        import re as _re
+
+        if isinstance(obj, _re.Pattern):
+            from .remodels import pattern_method
+
+            return pattern_method(self, ex, obj, name, args, kwargs, st, node)
         if isinstance(obj, SOpaque):
             hook = self.fn_models.get(("opaque", obj.sort, name))
             if hook:
@@ -1451,10 +1515,65 @@ class Models:
         except Exception:
             pass
 
-        def m_dict_environ_copy(ex, args, kwargs, st, node):
-            return [Val({"<environ>": True}, st)]
+        # ---- A-proc: process environment and subprocesses
+        M[os.environ.copy] = lambda ex, args, kwargs, st, node: [Val({"<os.environ>": True}, st)]
 
-        self.environ_copy = m_dict_environ_copy
+        def m_popen(ex, args, kwargs, st, node):
+            st.emit("Popen", args[0] if args else kwargs.get("args"), kwargs.get("env"))
+            bad = st.fork()
+            proc = ProcVal(V.sint(fresh_name("returncode")))
+            return [Exc(ExcVal(OSError, (V.sstr(fresh_name("oserr")),)), bad), Val(proc, st)]
+
+        M[subprocess.Popen] = m_popen
+
+        def m_check_output(ex, args, kwargs, st, node):
+            st.emit("Exec", args[0] if args else kwargs.get("args"), kwargs.get("env"))
+            out = []
+            for cls in (subprocess.CalledProcessError, OSError):
+                s2 = st.fork()
+                out.append(Exc(ExcVal(cls, (V.sstr(fresh_name("excmsg")),)), s2))
+            out.append(Val(BytesVal(V.sstr(fresh_name("output"))), st))
+            return out
+
+        M[subprocess.check_output] = m_check_output
+
+        def m_unlink(ex, args, kwargs, st, node):
+            st.emit("Unlink", args[0])
+            return [Val(None, st)]
+
+        M[os.unlink] = m_unlink
+
+        def m_path_exists(ex, args, kwargs, st, node):
+            ver = fs_version(st)
+            st.emit("Exists", args[0])
+            return [Val(SBool(FS_EXISTS(V.z3str(args[0]), z3.IntVal(ver))), st)]
+
+        M[os.path.exists] = m_path_exists
+
+        def m_sp_call(ex, args, kwargs, st, node):
+            st.emit("Exec", args[0] if args else kwargs.get("args"), kwargs.get("env"))
+            bad = st.fork()
+            return [Exc(ExcVal(OSError, (V.sstr(fresh_name("oserr")),)), bad), Val(V.sint(fresh_name("retcode")), st)]
+
+        M[subprocess.call] = m_sp_call
+
+        import tempfile
+
+        def m_tmpfile(ex, args, kwargs, st, node):
+            name = V.sstr(fresh_name("tmpname"))
+            st.emit("TempFile", name)
+            return [Val(FileVal(PathVal(name), args[0] if args else "w+b", {}), st)]
+
+        M[tempfile.NamedTemporaryFile] = m_tmpfile
+
+        import shlex
+
+        def m_shlex_split(ex, args, kwargs, st, node):
+            from . import shlexmodel
+
+            return shlexmodel.split(self, ex, args[0], st, node)
+
+        M[shlex.split] = m_shlex_split
 
     def isinstance_(self, v, t):
         if isinstance(t, tuple):
@@ -1489,6 +1608,33 @@ class Models:
             return isinstance(v, t)
         except TypeError:
             raise Unsupported(f"isinstance({v!r}, {t!r})")
+
+
+class ProcVal:
+    """subprocess.Popen object (A-proc): pipes are not modelled (they only feed log text)."""
+
+    def __init__(self, returncode):
+        self.returncode = returncode
+        self.stdout = None
+        self.stderr = None
+
+    def __pyvc_method__(self, ex, name, args, kwargs, st, node):
+        if name == "wait":
+            st.emit("ProcResult", "wait", self)
+            return [Val(self.returncode, st)]
+        raise Unsupported(f"Popen.{name}")
+
+
+class BytesVal:
+    """bytes holding the utf-8 encoding of a string."""
+
+    def __init__(self, s):
+        self.s = s
+
+    def __pyvc_method__(self, ex, name, args, kwargs, st, node):
+        if name == "decode":
+            return [Val(self.s, st)]
+        raise Unsupported(f"bytes.{name}")
 
 
 class SymSet:
